@@ -15,6 +15,7 @@ from sigma.processing.transformations.base import (
     StringValueTransformation,
     ValueTransformation,
 )
+from sigma.modifiers import SigmaAllModifier
 from sigma.rule import SigmaDetection, SigmaDetectionItem
 from sigma.exceptions import (
     SigmaRegularExpressionError,
@@ -100,7 +101,10 @@ class HashesFieldsDetectionItemTransformation(DetectionItemTransformation):
                     f"No valid hash algorithm found in Hashes field. Please use one of the following: {', '.join(self.valid_hash_algos)}"
                 )
 
-            return self._create_new_detection_items(algo_dict)
+            # The hashes stay alternatives unless all values of the item were required ('all' modifier)
+            return self._create_new_detection_items(
+                algo_dict, detection_item.value_linking is ConditionAND
+            )
         else:
             return None
 
@@ -169,12 +173,15 @@ class HashesFieldsDetectionItemTransformation(DetectionItemTransformation):
         """
         return f"{self.field_prefix}{'' if self.drop_algo_prefix else hash_algo}"
 
-    def _create_new_detection_items(self, algo_dict: dict[str, list[str]]) -> SigmaDetection:
+    def _create_new_detection_items(
+        self, algo_dict: dict[str, list[str]], all_linked: bool = False
+    ) -> SigmaDetection:
         """
         Creates new detection items based on the parsed hash values.
 
         Args:
             algo_dict (dict[str, list[str]]): A dictionary mapping field names to lists of hash values.
+            all_linked (bool): The values of the original item were linked with the 'all' modifier.
 
         Returns:
             SigmaDetection: A new SigmaDetection object containing the created detection items.
@@ -183,13 +190,13 @@ class HashesFieldsDetectionItemTransformation(DetectionItemTransformation):
             detection_items=[
                 SigmaDetectionItem(
                     field=k if k != "keyword" else None,
-                    modifiers=[],
+                    modifiers=[SigmaAllModifier] if all_linked else [],
                     value=[SigmaString(x) for x in v],
                 )
                 for k, v in algo_dict.items()
                 if k
             ],
-            item_linking=ConditionOR,
+            item_linking=ConditionAND if all_linked else ConditionOR,
         )
 
 
